@@ -19,6 +19,7 @@ type converter struct {
 	code                          []string
 	varCounter                    int
 	forCounter                    int
+	fors                          []int // Indices of the currently open loops (innermost last).
 	funcs                         []funcInfo
 	funcCounter                   int
 	sliceAssignmentHelperRequired bool
@@ -167,6 +168,9 @@ func (c *converter) ElseEnd() error {
 }
 
 func (c *converter) ForStart() error {
+	// Every loop gets its own first-iteration flag, also when it is nested in another loop.
+	c.fors = append(c.fors, c.forCounter)
+	c.forCounter++
 	c.addLine(fmt.Sprintf(`%s=`, c.mustCurrentForVar()))
 	c.addLine("while true; do")
 	return nil
@@ -190,7 +194,7 @@ func (c *converter) ForCondition(condition string) error {
 
 func (c *converter) ForEnd() error {
 	c.addLine("done")
-	c.forCounter++
+	c.fors = c.fors[:len(c.fors)-1]
 
 	return nil
 }
@@ -542,7 +546,7 @@ func (c *converter) ReadFile(path string, valueUsed bool) (string, error) {
 }
 
 func (c *converter) mustCurrentForVar() string {
-	return fmt.Sprintf("_fv%d", c.forCounter)
+	return fmt.Sprintf("_fv%d", c.fors[len(c.fors)-1])
 }
 
 func (c *converter) varName(name string, global bool) string {
